@@ -292,7 +292,8 @@ def run_history(ws, sc, st, steps, same_objects=False, variant=0):
     the first run starts from an empty output directory).  Returns the list of run records."""
     ws.nhist += 1
     outdir = os.path.join(ws.root, "out%d" % ws.nhist)
-    plots = [Plot(p + 1, n, sc["obj"][p], sc["grouped"], variant, png_format(variant))
+    plots = [Plot(p + 1, n, sc["obj"][p], sc["grouped"], variant, png_format(variant),
+                  nplots=len(sc["srcs"]) if not sc["grouped"] else 9)
              for p, n in enumerate(sc["srcs"])]
     data_ver = {pl.p: [1] * pl.nsrc for pl in plots}
     tpl_ver = 1
@@ -346,7 +347,11 @@ def run_history(ws, sc, st, steps, same_objects=False, variant=0):
         # (GroupBy keeps its groups between runs: a grouped pipeline is always built anew)
         if not same_objects or seq is None or sc["grouped"]:
             seq = ws.pipeline(outdir, st, sc["grouped"], variant)
-        flow = [(pl.data(m, data_ver[pl.p][m - 1]), pl.context(m)) for pl in plots for m in range(1, pl.nsrc + 1)]
+        flow = []
+        for pl in plots:
+            for m in range(1, pl.nsrc + 1):
+                data, context = pl.data(m, data_ver[pl.p][m - 1]), pl.context(m)
+                flow.append(data if context is None else (data, context))
         open(ws.log, "w").close()
         _audit["writes"] = []
         _audit["on"] = True
